@@ -98,6 +98,33 @@ def run(chk):
         if not (o.startswith("ok ") or o.startswith("err:")):
             bad.append((t, "sinks", "printing into a limited sink: " + o))
     chk.cov["limited_sinks"] = "%d documents printed into full / failing / one-byte sinks at every capacity; %d printable" % (len(sdocs), sink_ok)
+    # ---- printing what the DOM calls have BUILT (only the real code): after a history of mutator calls every node the history has a
+    # handle on - the document, the trees outside it, their parts - is printed compact and pretty (op `pd`); a tree that holds
+    # itself would never end (round-9 seed C03-N: a root that was never inserted anywhere could be put below its own descendant)
+    from props import domchecks as DC
+    from gen import domgen as DG
+    ph = [(t, ops + ["pd"]) for t, ops in DC.histories(rng, 300 if thorough else 120, 8, 0.3)]
+    for d_ in ("<r/>", "<r><a/></r>"):
+        k0 = 2 if d_ == "<r/>" else 3                       # first handle a created node gets
+        x_, y_, z_ = "h%d" % k0, "h%d" % (k0 + 1), "h%d" % (k0 + 2)
+        for chain in (["ap:%s:%s" % (x_, y_), "ap:%s:%s" % (y_, x_)], ["ap:%s:%s" % (x_, y_), "ap:%s:%s" % (y_, z_), "ap:%s:%s" % (z_, x_)],
+                      ["ap:%s:%s" % (x_, y_), "ib:%s:%s:-" % (y_, x_)], ["ap:%s:%s" % (x_, y_), "ap:%s:%s" % (y_, z_), "rc:%s:%s:%s" % (y_, x_, z_)],
+                      ["ap:%s:%s" % (x_, x_)], ["ap:h1:%s" % x_, "ap:%s:%s" % (x_, y_), "ap:%s:h1" % y_]):
+            ph.append((d_, ["ce:x", "ce:y", "ce:z"] + chain + ["pd"]))
+    pouts = lib.run_lines(h, [lib.req("dom", t, "count(//node())", *ops) for t, ops in ph], timeout=per_line * 30, per_line_resume=True)
+    printed = 0
+    for (t, ops), o in zip(ph, pouts):
+        recs = DG.split_records(o)
+        last = recs[-1]["status"] if recs else o
+        chk.count(["built-then-printed", t] + ops, nontrivial=True)
+        printed += last == "ok=printed"
+        # (the DOM factories panic on data the node cannot hold: the recorded finding factory-panic of C13 / C15, not a matter of
+        # printing - such calls are not counted here)
+        crash = [r["status"] for i_, r in enumerate(recs) if r["status"] in BAD and not (i_ > 0 and ops[i_ - 1].split(":")[0] in ("ct", "cc", "cd"))] \
+            or ([o] if o in BAD else [])
+        if crash:
+            bad.append((t, "dom-history then print: " + " ".join(ops), "printing (or a call before it) did not return: " + crash[0]))
+    chk.cov["built_then_printed"] = "%d histories, %d printed completely" % (len(ph), printed)
     # ---- hostile sizes: only the real code (the model driver's own recursion is not the subject)
     deep = []
     for name, n in [("nest", 5000), ("nest", 50000 if thorough else 20000), ("cm-seq", 20000), ("cm-choice", 50000 if thorough else 20000),
